@@ -60,14 +60,12 @@ def specSetup : C13.Setup where
 def specReg (H : Hier) : Reg := C13.freshReg H specSetup true
 
 def genSrc : SrcFacts :=
-  { initCalls := Generated.redInitCalls
-    defaults := Generated.redDefaults ++ Generated.redFnDefaults
+  { defaults := Generated.redDefaults ++ Generated.redFnDefaults
     superArgs := Generated.redSuperArgs
-    ctorLogic := Generated.redCtorLogic
-    foldBodies := Generated.redFoldBodies
-    flattenFn := Generated.redFlattenFn
-    mergeFn := Generated.redMergeFn
-    targetIter := Generated.redTargetIter
+    bodies := Generated.redBodies
+    methods := Generated.redMethods
+    module := Generated.redModule
+    selfWrites := Generated.redSelfWrites
     absIterExcluded := Generated.redAbsIterExcluded
     registerResetsMemo := Generated.c13RegisterResetsMemo }
 
